@@ -6,21 +6,24 @@ the frame lemmas expect.
 namespace GoLevel.Dur
 
 theorem stepJob_append_normal {cfg : Cfg} (hg : cfg.Good) {s : St} {d : Disk} {j : Job} {e : MRec} {m : Nat}
-    (hpc : j.pc = .append) (he : j.edit = some e) (hopen : s.manifestOpen = true) (hm : s.manifestFd = some m) :
+    (hpc : j.pc = .append) (he : j.edit = some e) (hopen : s.manifestOpen = true) (hm : s.manifestFd = some m)
+    (hmf : s.manifestFailed = false) :
     stepJob cfg s d j false .ok =
       some ({ s with job := some { j with pc := .sync } },
             { d with manifests := d.manifests.modify m (·.append { e with nf := s.nextFile }) }) := by
-  simp [stepJob, hpc, he, hopen, hm, hg.esbjr, Disk.exec, Disk.apply, Outcome.failed]
+  simp [stepJob, hpc, he, hopen, hm, hmf, hg.esbjr, Disk.exec, Disk.apply, Outcome.failed]
 
 theorem stepJob_append_rotate {cfg : Cfg} {s : St} {d : Disk} {j : Job} {e : MRec} {rot : Bool}
-    (hpc : j.pc = .append) (he : j.edit = some e) (hrot : rot = true ∨ s.manifestOpen = false) :
+    (hpc : j.pc = .append) (he : j.edit = some e)
+    (hrot : rot = true ∨ s.manifestOpen = false ∨ s.manifestFailed = true) :
     stepJob cfg s d j rot .ok =
       some ({ s with job := some { j with pc := .rotWrite s.nextFile }, nextFile := s.nextFile + 1 },
             { d with manifests := d.manifests.set s.nextFile {} }) := by
-  have : (rot = true ∨ ¬ s.manifestOpen = true) := by
-    rcases hrot with h | h
+  have : (rot = true ∨ ¬ s.manifestOpen = true ∨ s.manifestFailed = true) := by
+    rcases hrot with h | h | h
     · exact Or.inl h
-    · exact Or.inr (by rw [h]; simp)
+    · exact Or.inr (Or.inl (by rw [h]; simp))
+    · exact Or.inr (Or.inr h)
   simp only [stepJob, hpc, he, if_pos this, Disk.exec, Disk.apply, Outcome.failed, Bool.false_eq_true, if_false]
 
 theorem stepJob_rotWrite {cfg : Cfg} (hg : cfg.Good) {s : St} {d : Disk} {j : Job} {e : MRec} {m : Nat} {rot : Bool}
@@ -46,7 +49,8 @@ theorem stepJob_rotSetMeta {cfg : Cfg} (hg : cfg.Good) {s : St} {d : Disk} {j : 
 theorem stepJob_rotRemove {cfg : Cfg} {s : St} {d : Disk} {j : Job} {m : Nat} {rot : Bool}
     (hpc : j.pc = .rotRemove m) :
     stepJob cfg s d j rot .ok =
-      some ({ s with manifestFd := some m, manifestOpen := true, job := some { j with pc := .install } },
+      some ({ s with manifestFd := some m, manifestOpen := true, manifestFailed := false,
+                     job := some { j with pc := .install } },
             match s.manifestFd with
             | some old => { d with manifests := d.manifests.erase old }
             | none => d) := by
